@@ -1076,3 +1076,65 @@ func (c *Ctx) ruleEpochKeyPrefix() {
 	c.ob("R-KEYPREFIX", "getDataKeysFromDisk:prefix-ends-with-separator", lister.Pos(), strings.HasSuffix(fm, "%d"+sep),
 		fmt.Sprintf("the iteration prefix format is %q, the keys are written as <prefix>%%d%s<hash>", fm, sep))
 }
+
+// R-STALEHASH (C27): a header whose hash has been computed (and cached) is not changed afterwards.
+func (c *Ctx) ruleStaleHash(dir string) {
+	c.doc("R-STALEHASH", dir+": no field of a *types.Header parameter is stored after Hash() was called on it in the same function: Hash() caches its result in the header, so the mutated header keeps answering with the old hash — CheckEquivocation then compares the stored (re-hashed) header with a stale hash and reports an equivocation for one and the same header")
+	sp := c.ssaPkg(dir)
+	if sp == nil {
+		return
+	}
+	n := 0
+	for _, f := range allFuncs(c, sp) {
+		for _, p := range f.Params {
+			if !isNamed(p.Type(), "dot/types.Header") {
+				continue
+			}
+			// the parameter itself, or loads of the cell it is spilled to when a closure captures it
+			isP := func(v ssa.Value) bool {
+				if v == ssa.Value(p) {
+					return true
+				}
+				if u, ok := v.(*ssa.UnOp); ok && u.Op == token.MUL {
+					if al, ok := u.X.(*ssa.Alloc); ok {
+						for _, r := range *al.Referrers() {
+							if st, ok := r.(*ssa.Store); ok && st.Addr == ssa.Value(al) && st.Val == ssa.Value(p) {
+								return true
+							}
+						}
+					}
+				}
+				return false
+			}
+			var hashes, stores []ssa.Instruction
+			eachInstr(f, func(_ *ssa.BasicBlock, _ int, in ssa.Instruction) {
+				switch x := in.(type) {
+				case *ssa.Call:
+					if cal := x.Call.StaticCallee(); cal != nil && cal.Name() == "Hash" && len(x.Call.Args) > 0 && isP(x.Call.Args[0]) {
+						hashes = append(hashes, x)
+					}
+				case *ssa.Store:
+					if fa, ok := x.Addr.(*ssa.FieldAddr); ok && isP(fa.X) {
+						stores = append(stores, x)
+					}
+				}
+			})
+			if len(hashes) == 0 && len(stores) == 0 {
+				continue
+			}
+			n++
+			bad := ""
+			for _, h := range hashes {
+				for _, s := range stores {
+					if instrReaches(h, s) {
+						bad = fmt.Sprintf("Hash() at %s, field store at %s", c.pos(h.Pos()), c.pos(s.Pos()))
+					}
+				}
+			}
+			c.ob("R-STALEHASH", relName(f.String())+":"+p.Name()+"-not-mutated-after-Hash", f.Pos(), bad == "", "the header is changed after its hash was cached: "+bad)
+		}
+	}
+	if n == 0 {
+		c.unresolved("functions of " + dir + " that hash or change a *types.Header parameter")
+	}
+}
